@@ -278,3 +278,10 @@ Proof.
   eexists. eexists. split; [vm_compute; reflexivity|]. split; [vm_compute; reflexivity|].
   split; vm_compute; reflexivity.
 Qed.
+
+(** ** original columns: the two readings of "column" differ as soon as an astral character precedes a
+       token on its line; the parser (and so every emitted segment) uses scalar values, consumers UTF-16 *)
+Definition astral_line : str := s "  """ ++ [128512] ++ s " note"" name: String".
+Lemma orig_column_units_refuted_lemma :
+  exists tok, In tok (token_starts astral_line) /\ t_line tok = 0 /\ t_colc tok = 11 /\ t_col16 tok = 12.
+Proof. eexists. split; [right; left; reflexivity|]. vm_compute. repeat split. Qed.
